@@ -6,6 +6,8 @@ import (
 	"errors"
 	"fmt"
 	"reflect"
+	"strings"
+	"unicode/utf8"
 
 	"github.com/nspcc-dev/neo-go/pkg/consensus"
 	"github.com/nspcc-dev/neo-go/pkg/core/block"
@@ -17,7 +19,9 @@ import (
 	"github.com/nspcc-dev/neo-go/pkg/network/payload"
 	"github.com/nspcc-dev/neo-go/pkg/smartcontract/manifest"
 	"github.com/nspcc-dev/neo-go/pkg/smartcontract/nef"
+	"github.com/nspcc-dev/neo-go/pkg/smartcontract/trigger"
 	"github.com/nspcc-dev/neo-go/pkg/vm/stackitem"
+	"github.com/nspcc-dev/neo-go/pkg/vm/vmstate"
 )
 
 // codec describes one wire type of the real code for the generic oracle.
@@ -37,6 +41,9 @@ type codec struct {
 	jsonRT func(v any) (any, error)               // JSON marshal + unmarshal (nil: no JSON form)
 	jsonOK func(v any) bool                       // values for which the JSON form is defined
 	rawGen func(g *G) ([]byte, []int)             // types without constructors: generate bytes directly
+	norm   func(v any) string                     // form compared across re-encoding / JSON (nil: show)
+	altEnc func(v any) ([]byte, error)            // another valid encoding of v (compressed message)
+	looseEnc bool                                 // the encoding is text (JSON): null vs [] differences are not compared
 }
 
 func encBytes(v io.Serializable) ([]byte, error) {
@@ -252,6 +259,20 @@ func initCodecs() {
 		return 1 + n.Size()
 	}
 	c.jsonRT = jsonVia[mpt.NodeObject]
+	// children decoded inline are re-encoded as hash references (by design): compare what the node commits to
+	c.norm = func(v any) string {
+		n := v.(*mpt.NodeObject).Node
+		if n == nil {
+			return "nil"
+		}
+		if n.Type() == mpt.EmptyT {
+			return "empty"
+		}
+		if n.Type() == mpt.HashT {
+			return "hash " + n.Hash().StringBE()
+		}
+		return hex.EncodeToString(n.Bytes())
+	}
 	c.weight = 14
 
 	// ---- extensible, consensus, notary request ----
@@ -261,11 +282,28 @@ func initCodecs() {
 
 	c = reg(serCodec("consensus", func() io.Serializable { return &consensus.Payload{} }, nil))
 	c.rawGen = genConsensusBytes
+	// the wire bytes of this codec are the dBFT message (the Data of an Extensible envelope)
+	c.dec = func(b []byte) (any, int, error) {
+		p := &consensus.Payload{}
+		r := io.NewBinReaderFromBuf(wrapConsensus(b))
+		p.DecodeBinary(r)
+		return p, 0, r.Err
+	}
 	c.enc = func(v any) ([]byte, error) {
 		// re-encode from the decoded message fields (Data is dropped so that encodeData rebuilds it)
 		p := *v.(*consensus.Payload)
 		p.Extensible.Data = nil
-		return encBytes(&p)
+		outer, err := encBytes(&p)
+		if err != nil {
+			return nil, err
+		}
+		e := payload.NewExtensible()
+		r := io.NewBinReaderFromBuf(outer)
+		e.DecodeBinary(r)
+		if r.Err != nil {
+			return nil, r.Err
+		}
+		return e.Data, nil
 	}
 	c.hash = nil
 	c.show = func(v any) string {
@@ -324,6 +362,7 @@ func initCodecs() {
 		return s.String()
 	}
 	c.jsonRT = jsonVia[state.NotificationEvent]
+	c.jsonOK = func(v any) bool { return utf8.ValidString(v.(*state.NotificationEvent).Name) } // JSON strings are UTF-8
 	c = reg(serCodec("aer", func() io.Serializable { return &state.AppExecResult{} }, func(g *G) any { return g.aer() }))
 	c.show = func(v any) string {
 		a := v.(*state.AppExecResult)
@@ -351,6 +390,31 @@ func initCodecs() {
 		return s.String()
 	}
 	c.jsonRT = jsonVia[state.AppExecResult]
+	c.jsonOK = func(v any) bool {
+		a := v.(*state.AppExecResult)
+		// JSON names triggers and VM states; strings must be UTF-8; items that only the protected
+		// serialisation can carry (interop, pointer, invalid) have no JSON form
+		if t, err := trigger.FromString(a.Trigger.String()); err != nil || t != a.Trigger {
+			return false
+		}
+		if st, err := vmstate.FromString(a.VMState.String()); err != nil || st != a.VMState {
+			return false
+		}
+		if !utf8.ValidString(a.FaultException) || len(a.Invocations) != 0 {
+			return false
+		}
+		for i := range a.Events {
+			if !utf8.ValidString(a.Events[i].Name) {
+				return false
+			}
+		}
+		var s sb
+		for _, it := range a.Stack {
+			showItem(&s, it, 0)
+		}
+		d := " " + s.String() + " "
+		return !strings.Contains(d, " invalid ") && !strings.Contains(d, " interop ") && !strings.Contains(d, " ptr ")
+	}
 
 	// ---- P2P payloads and message framing ----
 	reg(serCodec("p2p.version", func() io.Serializable { return &payload.Version{} }, func(g *G) any {
@@ -420,7 +484,7 @@ func initCodecs() {
 			m := v.(*network.Message)
 			sw := &segWriter{}
 			w := io.NewBinWriterFromIO(sw)
-			if err := m.Encode(w); err != nil {
+			if err := m.EncodeCompressed(w, false); err != nil {
 				return nil, nil, err
 			}
 			return sw.buf, sw.cuts, nil
@@ -437,6 +501,10 @@ func initCodecs() {
 		c.enc = func(v any) ([]byte, error) {
 			m := v.(*network.Message)
 			// a fresh message with the decoded command and payload, as the node builds the ones it sends
+			return network.NewMessage(m.Command, m.Payload).BytesCompressed(false)
+		}
+		c.altEnc = func(v any) ([]byte, error) { // LZ4-compressed when the payload is over 1 KiB (output not deterministic)
+			m := v.(*network.Message)
 			return network.NewMessage(m.Command, m.Payload).Bytes()
 		}
 		c.show = func(v any) string {
@@ -464,7 +532,7 @@ func initCodecs() {
 	}
 
 	// ---- manifest (JSON is its wire form) ----
-	c = reg(&codec{name: "manifest", weight: 8})
+	c = reg(&codec{name: "manifest", weight: 8, looseEnc: true})
 	c.gen = func(g *G) any { return g.manifest() }
 	c.encSeg = func(v any) ([]byte, []int, error) {
 		j, err := json.Marshal(v)
@@ -510,6 +578,8 @@ func trieShaped(n mpt.Node) bool {
 	return n != nil
 }
 
+var cacheFields = map[string]bool{"hash": true, "hashed": true, "size": true, "bytes": true, "bytesValid": true, "hashValid": true, "compressedPayload": true}
+
 // dumpAny prints a value structurally (pointers followed, unexported fields included, no addresses).
 func dumpAny(v any) string {
 	return dumpVal(reflect.ValueOf(v), 0)
@@ -531,10 +601,10 @@ func dumpVal(v reflect.Value, depth int) string {
 	case reflect.Struct:
 		s := "{"
 		for i := 0; i < v.NumField(); i++ {
-			if i > 0 {
-				s += " "
+			if cacheFields[v.Type().Field(i).Name] {
+				continue // caches set at decode time; their agreement is checked through Hash()/Size()
 			}
-			s += v.Type().Field(i).Name + ":" + dumpVal(v.Field(i), depth+1)
+			s += " " + v.Type().Field(i).Name + ":" + dumpVal(v.Field(i), depth+1)
 		}
 		return s + "}"
 	case reflect.Slice, reflect.Array:
